@@ -34,13 +34,23 @@ TlsLetters  == TlsShare \cup {"tlstimeout"}
 \* the target while it is away fails like a transport failure; the others are answered with a plain 200 / OK.
 AvailLetters == {"avreset", "avhole", "avrefused"}
 ShareLetters == TlsShare \cup AvailLetters
-NetLetters  == {"badstatus", "badheader", "hugeheader", "closebefore", "closeduring", "refused", "timeout"} \cup TlsLetters
-               \cup AvailLetters
-BodyLetters == {"trunc", "badchunk"}
+\* the connect gun's TUNNEL: the CONNECT is not answered (connection closed) / answered 407 / with bytes that are no status
+\* line / with 200 and bytes behind it - no request gets through, every shot is a transport failure
+TunnelLetters == {"tunrefused", "tun407", "tungarbage", "tunextra"}
+\* "many1xx": more interim 1xx responses than the client puts up with
+NetLetters  == {"badstatus", "badheader", "hugeheader", "closebefore", "closeduring", "refused", "timeout", "many1xx"} \cup TlsLetters
+               \cup AvailLetters \cup TunnelLetters
+\* chunked bodies with a chunk size that overflows / is negative / whose data is not followed by CRLF / that end inside a
+\* chunk; "gzipbad": Content-Encoding gzip on a body that is no gzip stream, client configured to decompress
+BodyLetters == {"trunc", "badchunk", "chunkhuge", "chunkneg", "chunknocrlf", "chunktrunc", "gzipbad"}
 \* "lst*": a well-formed 200 whose JSON body has, under the key `list` that later steps index, an EMPTY array / an array
 \* of one element / a string / null / an object (every other JSON-bodied letter: an array of two elements)
 ListLetters == {"lst0", "lst1", "lststr", "lstnull", "lstobj"}
-OddLetters  == {"early", "empty", "big", "notjson", "jsonarr", "nothtml", "shorthdr", "nohdr"} \cup ListLetters
+\* "cont100": an unsolicited 100 Continue before the response; "upgrade": 101 Switching Protocols (nobody asked), then the
+\* peer hangs up; "gzipraw": the gzipbad bytes with the default client (no decompression: the garbage IS the body);
+\* "manyheaders": a header block of 1.2 MB in 20 000 lines; "dribble": a well-formed response in one-byte writes
+OddLetters  == {"early", "empty", "big", "notjson", "jsonarr", "nothtml", "shorthdr", "nohdr", "cont100", "upgrade", "gzipraw",
+                "manyheaders", "dribble"} \cup ListLetters
 \* "hv": a well-formed 200 whose X-Tok header value has exactly `code` bytes (0 = empty / absent)
 ValueLens   == {0, 1, 2, 3, 5, 12}
 HvLetter(n) == [l |-> "hv", code |-> n]
@@ -50,13 +60,13 @@ HttpLetters == {StatusLetter(c) : c \in StatusCodes} \cup {Plain(l) : l \in NetL
 \* attributes of the response the client gets to see
 NetFails(x)   == x.l \in NetLetters                      \* no response at all: transport error
 BodyFails(x)  == x.l \in BodyLetters                     \* status and headers arrive, reading the body fails
-Code(x)       == IF x.l = "status" THEN x.code ELSE 200
+Code(x)       == IF x.l = "status" THEN x.code ELSE IF x.l = "upgrade" THEN 101 ELSE 200
 \* ("jsonarr" is valid JSON, but an array)
 \* the body is a JSON object in which $.tok exists; what is under $.list: "n" an array with elements, "empty" an empty
 \* array, "scalar" something that cannot be indexed (a string, null, an object)
 ListKind(x)   == CASE x.l = "lst0" -> "empty" [] x.l \in {"lststr", "lstnull", "lstobj"} -> "scalar" [] OTHER -> "n"
 BodyJSON(x)   == CASE x.l = "status" -> ~NoBody(x.code)
-                   [] x.l \in {"early", "big", "shorthdr", "nohdr", "hv"} \cup ListLetters -> TRUE
+                   [] x.l \in {"early", "big", "shorthdr", "nohdr", "hv", "cont100", "manyheaders", "dribble"} \cup ListLetters -> TRUE
                    [] OTHER -> FALSE
 BodyHasTok(x) == BodyJSON(x) \/ x.l \in {"notjson", "jsonarr"}          \* the byte string "tok" occurs in the body
 HdrTok(x)     == CASE x.l \in {"shorthdr", "hv"} -> "short" [] x.l = "nohdr" -> "absent" [] OTHER -> "long"
@@ -150,6 +160,13 @@ OkLetter(gun) == IF gun \in GrpcGuns THEN [l |-> "code", code |-> 0] ELSE Status
 LettersOf(gun) == IF gun \in {"grpc", "grpc/scenario"} THEN GrpcLetters ELSE HttpLetters
 PostsOf(gun)   == IF gun = "http/scenario" THEN Posts \cup IdxPosts ELSE IF gun = "http2/scenario" THEN Posts ELSE {"none"}
 
+\* For the instance loop two letters are the same thing when they yield the same samples under every postprocessor set of
+\* the gun: the loop is explored over one representative per class (OutcomeTotal still ranges over every letter; the
+\* negative control over every letter, its trigger being a property of single letters).
+ClassOf(gun, x) == [p \in PostsOf(gun) |-> Outcome(gun, x, p)]
+Repr == [g \in Guns |-> {CHOOSE y \in LettersOf(g) : ClassOf(g, y) = c : c \in {ClassOf(g, x) : x \in LettersOf(g)}}]
+AcqLetters(gun) == IF RespCanPanic THEN LettersOf(gun) ELSE Repr[gun]
+
 \* the only documented fatal condition: an http2 gun against a target that does not speak HTTP/2
 Fatal(gun, x) == gun \in {"http2", "http2/scenario"} /\ x.l = "nonh2"
 
@@ -169,7 +186,7 @@ Init == /\ \E g \in Guns : \E p \in PostsOf(g) : run = [gun |-> g, posts |-> p]
 
 Acquire(i) == /\ pc[i] = "idle" /\ poolErr = "none" /\ taken < NAmmo
               /\ taken' = taken + 1
-              /\ \E x \in LettersOf(run.gun) : cur' = [cur EXCEPT ![i] = x]
+              /\ \E x \in AcqLetters(run.gun) : cur' = [cur EXCEPT ![i] = x]
               /\ pc' = [pc EXCEPT ![i] = "shoot"]
               /\ UNCHANGED <<run, nsamples, due, poolErr>>
 
